@@ -595,10 +595,22 @@ def run_history(binary, modeld, hist):
             same += 1
     res["mismatch"] = mism
     res["maxB"], res["sameSizeSteps"], res["maxNoverflow"] = maxB, same, nov
-    res["first_clr"] = next((i for i, o in enumerate(hist["ops"]) if o[0] == "clr"), None)
+    res["first_clr"] = first_effective_clear(hist, real_ans, pre)
     res["real_sample"] = real_ans[pre + len(hist["ops"]) // 2] if len(real_ans) > pre + len(hist["ops"]) // 2 else None
     res["model_sample"] = model_ans[mpre + len(hist["ops"]) // 2] if len(model_ans) > mpre + len(hist["ops"]) // 2 else None
     return res
+
+
+def first_effective_clear(hist, real_ans, pre):
+    """index of the first clear() that the real code executed on a non-empty map (None if there is none)"""
+    for i, o in enumerate(hist["ops"]):
+        if o[0] == "clr" and i > 0 and pre + i - 1 < len(real_ans):
+            try:
+                if int(parse_real(real_ans[pre + i - 1])[2].split(",")[0]) > 0:
+                    return i
+            except ValueError:
+                pass
+    return None
 
 
 def build_native(ctx):
@@ -679,6 +691,7 @@ def run(ctx, args):
                 hists.append(h)
 
     total = 0
+    unknown_reports = 0
     seen_keys = set()
     nontrivial = set()
     dist = {}
@@ -688,8 +701,10 @@ def run(ctx, args):
     suspended = 0
     samples = []
     cov = {"maxB": 0, "sameSizeSteps": 0, "maxNoverflow": 0, "fatal_lines": 0}
-    for h in hists:
-        r = run_history(binary, modeld, h)
+    from concurrent.futures import ThreadPoolExecutor
+    with ThreadPoolExecutor(max_workers=4) as pool:      # the work is in the two subprocesses
+        results = list(pool.map(lambda hh: run_history(binary, modeld, hh), hists))
+    for h, r in zip(hists, results):
         total += r["n"]
         dist[h["kind"] + ":" + h["profile"]] = dist.get(h["kind"] + ":" + h["profile"], 0) + r["n"]
         for (n, k, v, s) in h["ops"]:
@@ -701,6 +716,7 @@ def run(ctx, args):
         if len(samples) < 3 and r["real_sample"]:
             samples.append({"history": h["name"], "real": r["real_sample"], "model": r["model_sample"]})
         fc = r["first_clr"]
+        h["_first_clr"] = fc
         if r["spec"]:
             spec_fail += 1
         for tag in ("general", "nan-stale"):
@@ -710,7 +726,9 @@ def run(ctx, args):
             i, msg, _ = vs[0]
             if tag == "nan-stale":
                 key = KNOWN_NAN
-            elif fc is not None and fc < i:
+            elif fc is not None and fc < i and (defect_clear or h["name"].startswith("corpus/clear-then-refill")):
+                # the clear defect is present in this tree (its corpus replay fails): violations after an effective
+                # clear() belong to that class.  Once the replay passes, nothing is attributed to it any more.
                 defect_clear = True
                 key = KNOWN_CLEAR
             else:
@@ -718,7 +736,12 @@ def run(ctx, args):
             if key in seen_keys and ctx.match_known(key) is not None:
                 continue
             seen_keys.add(key)
-            if ctx.match_known(key) is not None or len(h["ops"]) <= 60:
+            known = ctx.match_known(key) is not None
+            if not known:
+                unknown_reports += 1
+                if unknown_reports > 3:
+                    continue                              # three replays are enough to act on
+            if known or len(h["ops"]) <= 60 or unknown_reports > 1:
                 hm = dict(h, ops=h["ops"][:i + 1])      # known class: its minimised replay is in corpus/C06
             else:
                 hm = minimise(binary, h, tag)
@@ -727,14 +750,14 @@ def run(ctx, args):
                        {"history": hist_json(hm), "violations": vs[:5], "fatal_error_lines": r["fatal_lines"], "source": h["name"]})
         if r["mismatch"]:
             i = r["mismatch"][0]
-            if fc is not None and fc < i and (defect_clear or any(b[2] == "general" for b in r["spec"])):
+            if fc is not None and fc < i and defect_clear:
                 suspended += 1      # divergence after clear() while the clear defect is present: explained by the finding
             else:
                 mismatches.append((h["name"], r["mismatch"], h))
     # a mismatch after clear seen BEFORE the defect was established is re-classified now
     still = []
     for (name, mm, h) in mismatches:
-        fc = next((i for i, o in enumerate(h["ops"]) if o[0] == "clr"), None)
+        fc = h.get("_first_clr")
         if defect_clear and fc is not None and fc < mm[0]:
             suspended += 1
         else:
